@@ -328,10 +328,10 @@ def floors(tier):
 def plan(tier, seed):
     # fork() costs 0.1-0.8 s in this sandbox: one fork per history is the budget, reductions only on a mismatch
     if tier == "quick":
-        nhist, parts, nfac = 24, 6, 10
+        nhist, parts, nfac = 18, 5, 10
     else:
         nhist, parts, nfac = 120, 15, 25
-    out = [{"name": "directed"}, {"name": "timeouts"}, {"name": "hidden", "seed": seed, "n": 6 if tier == "quick" else 50}]
+    out = [{"name": "directed"}, {"name": "timeouts"}, {"name": "hidden", "seed": seed, "n": 4 if tier == "quick" else 40}]
     for p in range(parts):
         out.append({"name": "random", "seed": seed, "part": p, "nhist": nhist, "nfactory": nfac})
     return out
@@ -552,6 +552,14 @@ def _executed_tags(test, summary):
     return out
 
 
+VICTIM_FAMILY = {"print": "stream-write", "sys.stderr.write": "stream-write"}
+
+
+def _okey(cul, vic):
+    """Mechanism key of an order dependence: API whose effect leaked -> kind of API that observed it."""
+    return f"order-dependence:{cul}->{VICTIM_FAMILY.get(vic, vic)}"
+
+
 class HistorySet:
     """Runs histories (one forked process each) and decides both oracles.
 
@@ -659,8 +667,9 @@ class HistorySet:
             ctx.ok(n=len(lst), cls="order:compared")
             for h, pos, s in lst:
                 if s == ref:
-                    for vt in set(_executed_tags(t, s)):
-                        exon.setdefault(vt, set()).update(before_single[h][pos])
+                    if _single_call_fn(t):  # (a multi-statement test may shield its own call, e.g. by replacing the stream first)
+                        for vt in set(_executed_tags(t, s)):
+                            exon.setdefault(vt, set()).update(before_single[h][pos])
                 else:
                     bad_all.append((t, ref, h, pos, s))
         # rank suspects per victim API by how often they precede a disturbed execution
@@ -687,7 +696,7 @@ class HistorySet:
             if found:
                 comp2, case = found
                 self.confirmed.add((ctag, vt))
-                key = f"order-dependence:{ctag}->{vt}:{comp2}"
+                key = _okey(ctag, vt)
                 if key not in self.reported:
                     self.reported.add(key)
                     case["observed_in_history"] = {"victim": H.test_lines(victim)[:12], "position": pos, "apis_before": sorted(tags_before)}
@@ -699,7 +708,7 @@ class HistorySet:
                     )
                 return
         # not attributable from the data: reduce the concrete history (bounded number of times)
-        key = f"order-dependence:unattributed->{vt}:{comp}"
+        key = _okey("unattributed", vt)
         if key in self.reported:
             ctx.count("order_mismatches_same_mechanism")
             return
@@ -730,14 +739,14 @@ class HistorySet:
                     return g is not None and g != ref
 
                 cmin = _chop(culprit, _bisect(0, culprit.size(), bad_c))
-            key = f"order-dependence:{_last_fn(cmin)}->{_victim_fn(victim, got, ref)}:{_first_diff(got, ref)}"
+            key = _okey(_last_fn(cmin), _victim_fn(victim, got, ref))
             if key not in self.reported:
                 self.reported.add(key)
                 ctx.witness(key, "result differs from the stand-alone result after one predecessor test (reduced from a concrete history; "
                             "the culprit API is the last call of the shortest disturbing prefix of that test)",
                             {"culprit": H.test_lines(cmin), "victim": H.test_lines(victim), "first_in_fresh_process": ref, "after_culprit": got})
         else:
-            ctx.witness(f"order-dependence:several-predecessors->{vt}:{comp}", "result differs from the stand-alone result only after several predecessor tests",
+            ctx.witness(_okey("several-predecessors", vt), "result differs from the stand-alone result only after several predecessor tests",
                         {"prefix": [H.test_lines(t) for t in preds[:k]], "victim": H.test_lines(victim), "first_in_fresh_process": ref, "after": s})
 
     def _confirm_tags(self, ctag, vt):
@@ -868,7 +877,7 @@ def run_chunk(spec, ctx):
                     elif got["timeout"] and not base[id(t)]["timeout"]:
                         ctx.anomaly("later_result_lost")  # C32: a removed result; load can also cause it
                     else:
-                        ctx.witness(f"order-dependence:timeout->{_last_fn(t)}:{_first_diff(got, base[id(t)])}",
+                        ctx.witness(_okey("timeout", _last_fn(t)),
                                     "result after an abandoned (timed-out) execution differs from the stand-alone result",
                                     {"sequence": lines_of, "alone": base[id(t)], "after": got})
         return
